@@ -131,6 +131,9 @@ func c13Bases() []c13Base {
 		{id: "ctx-unary-operands", renamable: []string{"x"},
 			lines: cat(pl("header", "@@"), pl("meta", "var x expression"), pl("metaend", "@@"), pl("body", " total := sum(base, -offset, +x, *p, &q, <-ch)", "-foo(x)", "+bar(x)")),
 			files: []string{fnBody("total := sum(base, -offset, +a, *p, &q, <-ch)", "foo(a)"), fnBody("total := sum(base, -offset, +n, *p, &q, <-ch)", "mid()", "foo(n)"), fnBody("total := sum(base, offset, +a, *p, &q, <-ch)", "foo(a)"), fnBody("total := sum(base, -offset, +y, *p, &q, <-ch)", "foo(a)")}},
+		{id: "array-ellipsis", renamable: []string{"x"},
+			lines: cat(pl("header", "@@"), pl("meta", "var x expression"), pl("metaend", "@@"), pl("body", "-v := [...]int{x, 2}", "+v := [...]int{2, x}", " use(v, ...)")),
+			files: []string{fnBody("v := [...]int{a, 2}", "use(v, 1)"), fnBody("v := [...]int{n, 2}", "use(v)"), fnBody("v := []int{a, 2}", "use(v, 1)"), fnBody("v := [...]int{y, 2}", "mid()", "use(v, a, n)")}},
 		{id: "value-decl", renamable: []string{"x"},
 			lines: cat(pl("desc", "# value"), pl("header", "@@"), pl("meta", "var x expression"), pl("metaend", "@@"), pl("body", "-var v = foo(x)", "+var v = bar(x)")),
 			files: []string{"package p\n\nvar v = foo(1)\n", "package p\n\nfunc f() {\n\tvar v = foo(y)\n\t_ = v\n}\n", "package p\n\nvar w = foo(1)\n", "package p\n\nvar (\n\tv = foo(1)\n)\n"}},
@@ -311,6 +314,19 @@ func c13Transforms(b c13Base, lines []pline) []c13Variant {
 			n = append(n, pline{"-" + txt, "body"}, pline{"+" + txt, "body"})
 			n = append(n, lines[i+1:]...)
 			out = append(out, c13Variant{fmt.Sprintf("ctx-to-pair@%d", i), n})
+		}
+	}
+	// T10: blanks inside brackets and parentheses around an ellipsis token ([...]T, f(...), g(..., x))
+	for i, l := range lines {
+		if l.Region != "body" || !strings.Contains(l.Text, "...") || len(l.Text) < 2 {
+			continue
+		}
+		for k, r := range []*strings.Replacer{strings.NewReplacer("[...]", "[ ... ]"), strings.NewReplacer("(...)", "( ... )", "(...,", "( ...,", ", ...)", ", ... )"), strings.NewReplacer("[...]", "[... ]", "(...", "(  ...")} {
+			if t := l.Text[:1] + r.Replace(l.Text[1:]); t != l.Text {
+				n := append([]pline{}, lines...)
+				n[i] = pline{t, "body"}
+				out = append(out, c13Variant{fmt.Sprintf("respace-ellipsis%d@%d", k, i), n})
+			}
 		}
 	}
 	// T9: trailing blanks / tabs after the code of a body line (each line, and all at once)
